@@ -157,28 +157,69 @@ def decode_template(hexs):
 
 
 class Reader:
+    """Abstract evaluation of parse_datetime and of the crate-local helpers it hands the input to: for every
+    strptime call the set of format strings and the kind of input (whole string / part before the last space)."""
+
     def __init__(self, crate, fn_suffix="datetime::parse_datetime"):
         self.crate = crate
         self.fn = crate.find_fn(fn_suffix)
-        self.env = {}
-        self.param_ids = {p["id"] for p in self.fn["params"] if p.get("k") == "Binding"}
-        self.rest_ids = set()
         self.table_rows = 0
-        self._bind_loops()
-        self._bind_rsplit()
         self.sites = []
         self.opaque_acceptors = []
-        for n in walk(self.fn["body"]):
+        self.opaque_calls = []  # crate-local / unknown calls that receive the input and could not be analysed
+        self.functions = []
+        whole = {p["id"] for p in self.fn["params"] if p.get("k") == "Binding"}
+        self._analyse(self.fn, {}, whole, set(), 0)
+
+    def _analyse(self, fn, env, whole_ids, rest_ids, depth):
+        self.functions.append(fn.get("def") or fn.get("name"))
+        saved = (getattr(self, "env", None), getattr(self, "param_ids", None), getattr(self, "rest_ids", None), getattr(self, "cur", None))
+        self.env = dict(env)
+        self.param_ids = set(whole_ids)
+        self.rest_ids = set(rest_ids)
+        self.cur = fn
+        self._bind_loops()
+        self._bind_rsplit()
+        for n in walk(fn["body"]):
+            if n.get("k") not in ("Call", "MethodCall"):
+                continue
             if n.get("k") == "Call":
                 p = (n["f"].get("res") or {}) if n["f"].get("k") == "Path" else {}
                 path = p.get("inst") or p.get("path") or ""
-                if path.endswith("::strptime") and len(n["args"]) == 2:
-                    kind = "Zoned" if "Zoned" in path else "DateTime"
-                    fmts = self.strset(n["args"][0])
-                    inp = self.input_kind(n["args"][1])
-                    self.sites.append({"kind": kind, "formats": fmts, "input": inp, "line": n["s"][0]})
-                elif path.endswith("from_str") or path.endswith("rfc2822::parse"):
-                    self.opaque_acceptors.append((path, n["s"][0]))
+                args = n["args"]
+            else:
+                path = n.get("inst") or n.get("m") or ""
+                args = [n["recv"]] + list(n["args"])
+            if path.endswith("::strptime") and len(args) == 2:
+                kind = "Zoned" if "Zoned" in path else "DateTime"
+                fmts = self.strset(args[0])
+                inp = self.input_kind(args[1])
+                self.sites.append({"kind": kind, "formats": fmts, "input": inp, "line": n["s"][0], "fn": fn.get("name")})
+            elif path.endswith("from_str") or path.endswith("rfc2822::parse"):
+                self.opaque_acceptors.append((path, n["s"][0]))
+            elif path.startswith("crate::") and any(self.input_kind(a) != "unknown" for a in args):
+                callee_fn = self.crate.hir.get(path)
+                if callee_fn is None or depth >= 3 or len(callee_fn["params"]) != len(args) or callee_fn is fn:
+                    self.opaque_calls.append((path, n["s"][0]))
+                    continue
+                env2, whole2, rest2 = {}, set(), set()
+                for prm, a in zip(callee_fn["params"], args):
+                    if prm.get("k") != "Binding":
+                        continue
+                    kind = self.input_kind(a)
+                    if kind == "whole":
+                        whole2.add(prm["id"])
+                    elif kind == "rest":
+                        rest2.add(prm["id"])
+                    else:
+                        ss = self.strset(a)
+                        if ss is not None:
+                            env2[prm["id"]] = ss
+                keep = (self.env, self.param_ids, self.rest_ids, self.cur)
+                self._analyse(callee_fn, env2, whole2, rest2, depth + 1)
+                self.env, self.param_ids, self.rest_ids, self.cur = keep
+        if saved[0] is not None:
+            self.env, self.param_ids, self.rest_ids, self.cur = saved
 
     def const_rows(self, e):
         e = peel_refs(e)
@@ -198,7 +239,7 @@ class Reader:
         return rows
 
     def _bind_loops(self):
-        for m in walk(self.fn["body"]):
+        for m in walk(self.cur["body"]):
             if m.get("k") != "Match" or str(m.get("src")) != "ForLoopDesugar":
                 continue
             sc = peel(m["scrut"])
@@ -235,7 +276,7 @@ class Reader:
                     break
 
     def _bind_rsplit(self):
-        for n in walk(self.fn["body"]):
+        for n in walk(self.cur["body"]):
             if n.get("k") == "Let" and n.get("init") is not None:
                 i = peel(n["init"])
                 if i.get("k") == "MethodCall" and i["name"] in ("rsplit_once",):
@@ -448,6 +489,10 @@ def rule_fmttab(crate, lib, min_strings=10):
         if any(x.opaque for x in fs):
             any_opaque_site = True
         compiled.append((s, fs))
+    if rd.opaque_calls:
+        any_opaque_site = True
+        for (pth, ln) in rd.opaque_calls:
+            out.advisory("parse_datetime:call:%s" % pth.split("::")[-1], f, ln, "the input is handed to `%s`, which is not analysed; treated as accepting anything" % pth)
     strings, skipped, renderers = collect_strings(lib)
     import os
 
